@@ -23,7 +23,7 @@ backward adjacency of every node.
 * Part D — crash: a reopen after losing any record suffix of the log gives the state at the
   last commit marker that survived.
 * Part E — non-vacuity (histories also run on the real database).
-* Part F — C07 again for the whole database-level API including the unlogged calls, and for
+* Part F — C07 again for the whole database-level API including the unlogged query insert, and for
   committed session transactions (settledness only).
 -/
 
@@ -521,8 +521,9 @@ theorem c05b_reopen_observables (ops : List LOp) :
 
 /-- W (the hypothesis "logged fragment"): a node inserted through a session query
 (`INSERT (:L {k: v})`) reaches the store but not the log; it is gone after close→reopen, and
-its id is handed out again. (Known finding `query-mutation-not-logged`; the other unlogged call,
-`remove_node_property`, is `c05_remove_property_lost_witness`.) -/
+its id is handed out again. (Known finding `query-mutation-not-logged`, still open. The other
+formerly unlogged call, `remove_node_property`, is logged since 0125264 and an ordinary member of
+`LOp`; the old behaviour is the regression theorem `c05_remove_property_lost_witness` over `Old.api`.) -/
 theorem c05b_query_insert_lost_witness :
     let d := runApi [.createNode [1]]
     let s1 := (d.live.createNode [2] d.live.epoch systemTx).1           -- the unlogged insert
@@ -792,6 +793,7 @@ theorem step_epoch_le {e : FDb} {d : Db} (h : FSim e d) (fop : FOp) :
     | setEdgeProp i k v => exact dataStep_epoch_le e _ rfl
     | addLabel i l => exact dataStep_epoch_le e _ rfl
     | removeLabel i l => exact dataStep_epoch_le e _ rfl
+    | removeNodeProp i k => exact dataStep_epoch_le e _ rfl
 
 theorem fsim_step {e : FDb} {d : Db} (h : FSim e d) (he : e.live.epoch < pendingEpoch) (fop : FOp) :
     FSim (e.step id fop) (stepL d fop) := by
@@ -809,6 +811,7 @@ theorem fsim_step {e : FDb} {d : Db} (h : FSim e d) (he : e.live.epoch < pending
     | setEdgeProp i k v => exact fsim_data h he _ rfl
     | addLabel i l => exact fsim_data h he _ rfl
     | removeLabel i l => exact fsim_data h he _ rfl
+    | removeNodeProp i k => exact fsim_data h he _ rfl
 
 theorem foldl_stepL (ops : List FOp) (d : Db) : ops.foldl stepL d = (eraseF ops).foldl Db.api d := by
   induction ops generalizing d with
@@ -1277,44 +1280,22 @@ theorem c05b_good_instance :
     (runApi hist1).live.inEdges 1 = [(0, 0), (0, 3), (2, 4)] ∧
     (runApi hist1).live.nodeIds = [0, 1] ∧ (runApi hist1).live.nextNode = 3 := by decide
 
-/-! ## Part F — C07 for the whole database-level API, the unlogged calls included
+/-! ## Part F — C07 for the whole database-level API, the unlogged mutation included
 
-A copy does not read the log, so for C07 the unlogged calls are ordinary mutations:
-`remove_node_property`, and a node inserted through a session query (at store level a
-`create_node` followed by `set_node_property`, which is how `Driver/Pers.lean` runs `qins`). -/
+A copy does not read the log, so for C07 the one mutation that is still not logged — a node
+inserted through a session query — is an ordinary mutation: at store level a `create_node`
+followed by `set_node_property`, which is how `Driver/Pers.lean` runs `qins`.
+(`remove_node_property` is a logged call since 0125264 and is covered by `runApi` already.) -/
 
 inductive COp where
-  | logged (op : LOp)                       -- any call of the logged fragment (also stands for a query insert)
-  | removeNodeProp (id key : Nat)
+  | logged (op : LOp)                          -- any call of the logged fragment
+  | queryInsert (labels : List Nat) (key : Nat) (v : String)   -- `INSERT (:L {k: v})`, never logged
 
 def cstep (s : Store) : COp → Store
   | .logged op => liveStep s op
-  | .removeNodeProp id k => (s.removeNodeProp id k).1
+  | .queryInsert ls k v => liveStep (liveStep s (.createNode ls)) (.setNodeProp s.nextNode k v)
 
 def runC (ops : List COp) : Store := ops.foldl cstep {}
-
-theorem nodePropsOf_removeNodeProp (s : Store) (id k x : Nat) :
-    (s.removeNodeProp id k).1.nodePropsOf x = if x = id then aerase (s.nodePropsOf id) k else s.nodePropsOf x := by
-  unfold Store.removeNodeProp Store.nodePropsOf
-  simp only
-  cases h : aget s.nprops id with
-  | none =>
-    simp only [Option.isSome_none, Bool.false_eq_true, if_false, Option.getD_none]
-    by_cases hx : x = id
-    · subst hx; simp [h, aerase]
-    · simp [hx]
-  | some p =>
-    simp only [Option.isSome_some, if_true, getD_aget_aset, Option.getD_some]
-
-theorem good_removeNodeProp {s : Store} (h : Good s) (id k : Nat) : Good (s.removeNodeProp id k).1 := by
-  refine ⟨nodeKeysOk_of_same h.nk rfl rfl, labelsOk_of_same h.lb rfl, ⟨?_, h.pr.2⟩,
-    edgesOk_of_same h.ed rfl rfl rfl rfl rfl rfl, edgeSingle_of_same h.sg rfl⟩
-  intro x
-  rw [nodePropsOf_removeNodeProp]
-  split
-  · rw [akeys_aerase]
-    exact List.Nodup.sublist List.filter_sublist (h.pr.1 id)
-  · exact h.pr.1 x
 
 theorem good_settled_liveStep {s : Store} (h : Good s) (hs : Settled s) (op : LOp) :
     Good (liveStep s op) ∧ Settled (liveStep s op) := by
@@ -1333,7 +1314,9 @@ theorem good_settled_runC (ops : List COp) : Good (runC ops) ∧ Settled (runC o
       apply ih
       cases op with
       | logged op => exact good_settled_liveStep h.1 h.2 op
-      | removeNodeProp id k => exact ⟨good_removeNodeProp h.1 id k, settled_of_same rfl rfl rfl h.2⟩
+      | queryInsert ls k v =>
+        have h1 := good_settled_liveStep h.1 h.2 (.createNode ls)
+        exact good_settled_liveStep h1.1 h1.2 _
   exact this {} ⟨good_empty, settled_empty⟩
 
 /-- F (C07, **every database-level history**, logged or not): the copy has the dump of the source. -/
@@ -1348,13 +1331,17 @@ theorem c07_export_import_dump_eq_all (ops : List COp) :
     dumpStore (importSnap (exportSnap (runC ops))) = dumpStore (runC ops) := by
   rw [import_export]; exact c07_copy_dump_eq_all ops
 
-/-- N: a removed property is not in the copy (and not in what `save`→`open` returns — unlike
-what the *source* returns after its own close→reopen, `c05_remove_property_lost_witness`). -/
+/-- N: a removed property is not in the copy, nor in what `save`→`open` returns — also when the
+source ran the old, unlogged `remove_node_property` (`Old.runApi`), whose *own* close→reopen
+brought the property back (`c05_remove_property_lost_witness`); and a query-inserted node is
+in every copy although the source's own reopen loses it. -/
 theorem c07_copy_after_remove_instance :
-    let s := runC [.logged (.createNode [1]), .logged (.setNodeProp 0 1 "I5"), .logged (.setNodeProp 0 2 "I6"),
-                   .removeNodeProp 0 1]
-    dumpStore s = "0:1:2=I6||0><" ∧ dumpStore (copyStore s) = "0:1:2=I6||0><" ∧
-    dumpStore (savedDb s).reopen.live = "0:1:2=I6||0><" := by decide
+    let h : List LOp := [.createNode [1], .setNodeProp 0 1 "I5", .setNodeProp 0 2 "I6", .removeNodeProp 0 1]
+    dumpStore (runApi h).live = "0:1:2=I6||0><" ∧ dumpStore (copyStore (runApi h).live) = "0:1:2=I6||0><" ∧
+    dumpStore (savedDb (runApi h).live).reopen.live = "0:1:2=I6||0><" ∧
+    dumpStore (copyStore (Old.runApi h).live) = "0:1:2=I6||0><" ∧
+    dumpStore (copyStore (runC [.logged (.createNode [1]), .queryInsert [2] 0 "I1"])) = "0:1:;1:2:0=I1||0><;1><" := by
+  decide
 
 /-! ### committed session transactions re-establish settledness
 
@@ -1431,5 +1418,23 @@ theorem c05b_set_on_dead_instance :
     dumpStore (runApi h).close.reopen.live = "1::;2::||1><;2><" ∧
     dumpStore (savedDb (runApi h).live).reopen.live = "1::;2::||1><;2><" ∧
     (runApi h).live.nodePropsOf 2 = [] ∧ (runApi h).close.reopen.live.nodePropsOf 2 = [] := by decide
+
+/-- N (`remove_node_property` as a logged call; run on the real database as
+`/tmp/c05b/rnp2.ops`, implementation = model = specification): a removal that hits, one that
+misses (logs nothing), a checkpoint, a rotation, another removal. Seven records; after
+close→reopen both properties stay removed (constant-epoch and file-level model alike); a crash
+that keeps the whole log but has no close brings back only the removal made after the
+checkpoint — it was not committed. -/
+theorem c05b_remove_prop_instance :
+    let h : List LOp := [.createNode [1], .setNodeProp 0 1 "I5", .setNodeProp 0 2 "I6", .removeNodeProp 0 1,
+      .removeNodeProp 0 7, .checkpoint, .removeNodeProp 0 2]
+    let hF : List FOp := (h.take 6).map (FOp.call · false) ++ [.rotate] ++ (h.drop 6).map (FOp.call · false)
+    (runApi h).log.length = 7 ∧
+    dumpStore (runApi h).live = "0:1:||0><" ∧
+    dumpStore (runApi h).close.reopen.live = "0:1:||0><" ∧
+    dumpStore (runF id (hF ++ [.call .closeReopen false])).live = "0:1:||0><" ∧
+    (runF id hF).files.map (fun f => f.2.length) = [6, 1] ∧
+    dumpStore (recovered (runApi h).log) = "0:1:2=I6||0><" ∧
+    dumpStore (durable h) = "0:1:2=I6||0><" := by decide
 
 end Grafeo.Persist
